@@ -33,7 +33,7 @@ func drawPostPlan(ch *simrt.Chooser, tls13 bool) postPlan {
 	p := postPlan{}
 	kinds := []string{"empty-flood", "raw-handshake", "plain", "keyupdate-storm", "keyupdate-storm"}
 	if !tls13 {
-		kinds = []string{"empty-flood", "raw-handshake", "plain", "hello-request", "hello-request"}
+		kinds = []string{"empty-flood", "raw-handshake", "plain", "hello-request", "hello-request", "cbc-padding-only"}
 	}
 	p.kind = kinds[ch.Pick(len(kinds), "post-kind")]
 	switch p.kind {
@@ -44,6 +44,8 @@ func drawPostPlan(ch *simrt.Chooser, tls13 bool) postPlan {
 		p.req = ch.Bool(75, "update-requested")
 	case "hello-request":
 		p.n = []int{1, 2, 5, 50}[ch.Pick(4, "hello-requests")]
+	case "cbc-padding-only":
+		p.n = []int{1, 2, 3, 8, 16}[ch.Pick(5, "padding-blocks")]
 	case "raw-handshake":
 		p.msgType = []uint8{25, 8, 4, 24, 13, 0, 1, 2, 11, 15, 20, 254}[ch.Pick(12, "msg-type")]
 		p.body = make([]byte, []int{0, 1, 2, 5, 40, 300}[ch.Pick(6, "msg-len")])
@@ -83,6 +85,12 @@ func (p postPlan) misbehave(rc *refsrv.Conn) error {
 			if err := rc.SendKeyUpdate(p.req); err != nil {
 				return err
 			}
+		}
+	case "cbc-padding-only":
+		// TLS <= 1.2 with a CBC suite: a record encrypted under the real key whose plaintext is
+		// nothing but valid padding (it covers the place of the MAC)
+		if err := rc.SendCBCPaddingOnlyRecord(p.n); err != nil {
+			return err
 		}
 	case "hello-request":
 		// TLS <= 1.2: the server asks for a renegotiation, n times in a row
@@ -150,6 +158,10 @@ func runC33Post(c *Ctx) {
 	}
 	plan := drawPostPlan(ch, srvMax == tls.VersionTLS13)
 	cfg := refCfg()
+	if plan.kind == "cbc-padding-only" {
+		srvMax = []uint16{tls.VersionTLS12, tls.VersionTLS11, tls.VersionTLS10}[ch.Pick(3, "cbc-version")]
+		cfg.CipherSuites = []uint16{0xc013, 0xc014, 0xc009, 0xc00a, 0x002f, 0x0035, 0xc012, 0x000a}
+	}
 	cfg.MaxVersion = srvMax
 	cfg.NextProtos = of.ALPN
 	w := c.NewWorld(simrt.Config{StepCap: 80000})
@@ -326,6 +338,11 @@ func runC34Post(c *Ctx) {
 		}
 	}
 	plan := drawPostPlan(ch, srvMax == tls.VersionTLS13)
+	if plan.kind == "cbc-padding-only" {
+		v := []uint16{tls.VersionTLS12, tls.VersionTLS11, tls.VersionTLS10}[ch.Pick(3, "cbc-version")]
+		scfg.MaxVersion, ccfg.MaxVersion = v, v
+		ccfg.CipherSuites = []uint16{0xc013, 0xc014, 0xc009, 0xc00a, 0x002f, 0x0035}
+	}
 	w := c.NewWorld(simrt.Config{StepCap: 80000})
 	l := simnet.NewLink("k")
 	l.Frag = ch.Bool(30, "frag")
